@@ -95,7 +95,7 @@ def strip_coq_comments_line(line):
     return line
 
 
-def coq_make(targets=None, timeout=3000, tag="all"):
+def coq_make(targets=None, timeout=3000, tag="all", keep_going=False, jobs=None):
     """Build the given .vo targets (or everything) with a per-check Makefile (Makefile.<tag>)."""
     coq_project_sync()
     mk = "Makefile." + tag
@@ -103,7 +103,10 @@ def coq_make(targets=None, timeout=3000, tag="all"):
     if rc != 0:
         return False, out
     tgt = " ".join(targets) if targets else ""
-    rc, out = sh("timeout %d make -f %s -j%d %s" % (timeout, mk, NPROC, tgt), cwd=COQ, timeout=timeout + 60)
+    rc, out = sh("timeout %d make -f %s %s -j%d %s" % (timeout, mk, "-k" if keep_going else "", jobs or NPROC, tgt), cwd=COQ, timeout=timeout + 60)
+    if rc != 0 and not keep_going and ("Error 137" in out or "Killed" in out or "Out of memory" in out):
+        # a coqc job was killed for memory under full parallelism: one retry at low parallelism
+        rc, out = sh("timeout %d make -f %s -j3 %s" % (timeout, mk, tgt), cwd=COQ, timeout=timeout + 60)
     return rc == 0, out
 
 
